@@ -240,6 +240,17 @@ def struct_rules(ctx, item):
            'the struct is always #[repr(C, ..)]; packed types get `, packed` and no align, all others `, align(N)` with N = the resolved alignment of this very item, printed unsuffixed: %s' % det, where)
     # derives
     m = re.search(r'^\s*ALT(\d+)\{  \|\| # \[ derive \( REP(\d+)\( ⟨V(\d+):([^⟩]*)⟩ \),\* \) \] \}', s)
+    if not m:
+        # `(!derives.is_empty()).then(|| quote!{ #[derive(..)] })`: the attribute is present exactly when the list is not empty
+        m2 = re.search(r'^\s*OPT(\d+)\[ # \[ derive \( REP(\d+)\( ⟨V(\d+):([^⟩]*)⟩ \),\* \) \] \]', s)
+        if m2:
+            c_ = item.opts[int(m2.group(1))][1]
+            x_ = strip(c_)
+            neg = False
+            while x_[0] == 'un' and x_[1] == 'Not':
+                x_, neg = strip(x_[2]), not neg
+            if neg and x_[0] == 'call' and x_[1].endswith('::is_empty'):
+                m = m2
     okd = False
     det = ''
     if m:
